@@ -42,7 +42,9 @@ def hx(b):
 TAG_POOL = [b"a", b"b", b"i", b"p", b"br", b"hr", b"img", b"input", b"ul", b"li", b"div", b"span", b"h1", b"_x", b"B", b"P", b"Img"]
 PROP_POOL = [b"href", b"src", b"title", b"size", b"checked", b"disabled", b"width", b"Class", b"id", b"HREF", b"alt"]
 ENT_POOL = [b"nbsp", b"copy", b"or", b"Amp", b"x1", b"apos", b"", b"a;b", b"LT", b"a b", b"a<b", b"x'y", b"#x"]
-REGEXES = [b".*", b"[a-z]+", b"(http|https|ftp)://.*", b"[0-9]+(px|em|%)?", b"[a-zA-Z0-9 _.-]*", b"[^<>\"']*", b"(left|right|center)"]
+REGEXES = [b".*", b"[a-z]+", b"(http|https|ftp)://.*", b"[0-9]+(px|em|%)?", b"[a-zA-Z0-9 _.-]*", b"[^<>\"']*", b"(left|right|center)",
+           b"^[a-z]+$", b"a|ab", b"[a-z]+?", b"(left|right)$", b"\\d+", b"a.c", b"[a-z]*$|x", b"(?:ab)+?c?"]
+DECOR = [b"\n", b"\r", b"\r\n", b" ", b"\x00", b"\n\n", b"\t"]
 SCHEMES = [b"(http|https|ftp|mailto|news|nntp)", b"(http|https)", b"[a-z]+"]
 ENCODINGS = [b"UTF-8", b"utf8", b"ISO-8859-1", b"iso-8859-8", b"ISO-8859-6", b"windows-1255", b"cp1251", b"US-ASCII", b"koi8-r", b"latin1", b"windows-1252",
              b"windows-1258", b"cp1258", b"Windows-1253", b"iso8859-7", b"ISO-8859-11", b"windows-1250", b"cp1257", b"ISO-8859-3", b"WINDOWS-1256", b"ISO_8859-15"]
@@ -135,7 +137,9 @@ URIS = [b"http://example.com/", b"https://a.b/c?d=e&amp;f=g#h", b"javascript:ale
         b"http://a/?x=a&y=b", b"data:text/html,x", b"//host/p", b"#frag", b"http://[::1]/", b"HTTP://X/", b"http://a/I&apos;m", b"http://a b/", b"", b"%41", b"%4", b"a:b"]
 GOOD_URIS = [b"http://example.com/", b"https://a.b/c?d=e&amp;f=g#h", b"/rel/path", b"x.html", b"http://a/I&apos;m", b"#frag", b"http://h/%41"]
 GOOD_RE = {b".*": [b"abc", b"", b"x y", b"a&b", b"?x=1&y=2", b"&lt;&amp;", b"a<b", b"a>b"], b"[a-z]+": [b"abc", b"x"], b"(http|https|ftp)://.*": [b"http://x/", b"ftp://y"], b"[0-9]+(px|em|%)?": [b"12px", b"50%", b"7"],
-           b"[a-zA-Z0-9 _.-]*": [b"Hello World", b"a_b-c.d", b""], b"[^<>\"']*": [b"abc", b"x=y;", b"a&b;", b"&", b"&#x27;&apos;"], b"(left|right|center)": [b"left", b"center"]}
+           b"[a-zA-Z0-9 _.-]*": [b"Hello World", b"a_b-c.d", b""], b"[^<>\"']*": [b"abc", b"x=y;", b"a&b;", b"&", b"&#x27;&apos;"], b"(left|right|center)": [b"left", b"center"],
+           b"^[a-z]+$": [b"abc"], b"a|ab": [b"a", b"ab"], b"[a-z]+?": [b"abc", b"a"], b"(left|right)$": [b"left"], b"\\d+": [b"123"], b"a.c": [b"abc", b"a-c"],
+           b"[a-z]*$|x": [b"abc", b"x", b""], b"(?:ab)+?c?": [b"ab", b"ababc"]}
 BAD_VALUES = [b"", b"<", b">", b"&", b"&amp;", b"&lt;x&gt;", b"&quot;", b"&apos;", b"&#39;", b"&#x27;", b"&#X27;", b"&#x28;", b"&nbsp;", b"&amp", b"a&amp;&amp;b",
               b"\x00", b"\xff\xfe", b"a'b", b'a"b', b"x y", b"&#39", b"&", b"&;"]
 
@@ -163,7 +167,15 @@ class G:
             if ty == "re":
                 if self.p(0.4):
                     return rng.choice([b"abc", b"http://x/", b"12px", b"50%", b"left", b"Hello World", b"a_b-c.d", b"", b"ftp://y", b"12", b"abc1", b"RIGHT", b"center"])
-                return rng.choice(GOOD_RE[arg])
+                v = rng.choice(GOOD_RE[arg])
+                rr = rng.random()
+                if rr < 0.12:
+                    v = v + rng.choice(DECOR)             # a string of the pattern language followed by LF / CR / space / NUL
+                elif rr < 0.18:
+                    v = rng.choice(DECOR) + v
+                elif rr < 0.22 and len(v) > 1:
+                    v = v[:1] + b"\n" + v[1:]
+                return v
             if self.p(0.5):
                 return rng.choice(URIS)
             if ty == "reluri":
@@ -412,6 +424,20 @@ def systematic_cases():
         f = "100:%s:0 - %s - -" % (hx(name), tags)
         for b in range(256):
             cases.append("C %s %s" % (f, hexs(b"x" + bytes([b]) + b"y")))
+    # (e) regex-typed attributes: strings of the pattern language decorated with LF / CR / CRLF / space / NUL (PCRE's `$` matches
+    #     before a final LF; a full match must not), patterns with anchors of their own, alternations, lazy quantifiers
+    for k, (pat, goods) in enumerate(sorted(GOOD_RE.items())):
+        for xh in (1, 0):
+            f = "%d00 - %s %s:%s:o1 1:re:%s" % (xh, tags, hx(b"b"), hx(b"class"), hx(pat))
+            for g in goods:
+                vals = [g] + [g + d for d in DECOR] + [d + g for d in DECOR] + ([g[:1] + b"\n" + g[1:]] if len(g) > 1 else [])
+                for v in vals:
+                    cases.append("C %s %s" % (f, hexs(b"<b class='" + v + b"'>x</b>")))
+    for sch in (b"(http|https)", b"[a-z]+", b"http$|x", b"^https?$"):
+        for kind in ("uri", "absuri"):
+            f = "100 - %s %s:%s:o1 1:%s:%s" % (tags, hx(b"a"), hx(b"href"), kind, hx(sch))
+            for v in (b"http://a/", b"https://a/", b"http\n://a/", b"ftp://a/", b"x://a/", b"http:", b"HTTP://a/"):
+                cases.append("C %s %s" % (f, hexs(b'<a href="' + v + b'">x</a>')))
     for enc in (b"UTF-8", b"utf8"):
         for xh in (1, 0):
             f = "%d11:%s:0 - %s - -" % (xh, hx(enc), tags)
@@ -718,7 +744,8 @@ def main():
     c.trusted += [
         "translator translate/c04.py + translate/cexpr.py (byte classes, entity sets, code point ranges, escape table, tokenizer constants, tag-kind table of xss.cpp -> Gen.lean; shape checks of the loops)",
         "hand-written control flow of Model.lean (tokenizer, tag/attribute parser, nesting, rules, filter), tied by the correspondence run on the public API",
-        "external attribute validators: booster::regex (PCRE) is an arbitrary predicate in the theorems, verdicts recorded from the real library (oracle table); "
+        "external attribute validators: the regex is an arbitrary predicate in the theorems; its verdicts are computed by the harness with libpcre directly (full match of \\A(?:pat)\\z), "
+        "independently of booster::regex, which the real validate() keeps using (oracle table); "
         "the cppcms uri_parser/uri_validator_functor is modelled by hand in Uri.lean (scheme regex = parameter), tied by its own correspondence stream and by cross-checking every "
         "recorded verdict in the filter cases",
         "strtol on an all-digit string (modelled as exact natural number; saturation at LONG_MAX is indistinguishable: both > 0x10FFFF)",
